@@ -17,6 +17,7 @@ E = "src/fcp/encoding.py"
 V = "src/fcp/verifier.py"
 CS = "plugins/fcp_cpp/fcp_cpp/can_static_schema.h"
 DY = "plugins/fcp_cpp/fcp_cpp/dynamic.h.j2"
+CD = "plugins/fcp_cpp/fcp_cpp/can_dynamic_schema.h"
 
 MUTATIONS = [
     # name, file, old, new, checks expected to catch it
@@ -127,6 +128,10 @@ MUTATIONS = [
     ("dyn-decode-double-as-float", DY, "            double data;\n            auto word = buffer.GetWord(64);\n            std::memcpy(&data, &word, sizeof(data));", "            double data;\n            auto word = buffer.GetWord(64);\n            float tmp; std::memcpy(&data, &word, sizeof(data)); tmp = data; data = tmp;", ["C13"]),
     ("static-array-fromjson-short", "plugins/fcp_cpp/fcp_cpp/decoders.h", "for (std::size_t i=0; i<N && i<j.size(); i++) {", "for (std::size_t i=0; i+1<N && i<j.size(); i++) {", ["C13", "C03"]),
     ("static-signed-decodejson-unsigned", "plugins/fcp_cpp/fcp_cpp/decoders.h", "        auto word = buffer.GetWord(BitSize, true, endianess);\n        return Signed(static_cast<UnderlyingType>(word));", "        auto word = buffer.GetWord(BitSize, BitSize != 13, endianess);\n        return Signed(static_cast<UnderlyingType>(word));", ["C13", "C03"]),
+    ("candyn-revert-tag-read", CD, "std::string bus_name_str(bus_name.begin(), std::find(bus_name.begin(), bus_name.end(), '\\0'));", "std::string bus_name_str(bus_name.begin(), bus_name.end());", ["C18"]),
+    ("candyn-bus-copy-3", CD, """std::copy(impl.fields.at("bus").begin(), impl.fields.at("bus").end(), bus_name.begin());""", """std::copy(impl.fields.at("bus").begin(), impl.fields.at("bus").begin() + std::min<std::size_t>(3, impl.fields.at("bus").size()), bus_name.begin());""", ["C18"]),
+    ("candyn-sid-11-bits", CD, """sid == std::stoi(impl.fields.at("id"));""", """(sid & 0x7FF) == std::stoi(impl.fields.at("id"));""", ["C18"]),
+    ("candyn-dlc-8", CD, "std::uint8_t dlc = encoded.value().size();", "std::uint8_t dlc = 8;", ["C18"]),
     ("serde-array-last-elem", S, "    for i in range(type.size):\n        _encode(buffer, fcp, type.underlying_type, data[i])", "    for i in range(type.size):\n        _encode(buffer, fcp, type.underlying_type, data[min(i, 1)])", ["C01", "C02"]),
 ]
 
